@@ -422,6 +422,10 @@ static void create_unit_of(wu_t *w, int by);
 static void body(void *arg)
 {
     wu_t *w = (wu_t *)arg;
+    /* the creator may not have stored the handle yet */
+    ABT_thread self;
+    CHK(ABT_self_get_thread(&self));
+    w->th = self;
     EV("\"e\":\"Begin\",\"t\":%d", w->id);
     w->begun++;
     if (w->stat) {
@@ -514,7 +518,7 @@ static void create_unit_of(wu_t *w, int by)
             r = ABT_task_create(P[p], body, w, &th);
             t_creating = 0;
         }
-        EV("\"e\":\"UNew\",\"by\":%d,\"t\":%d,\"p\":%d,\"kind\":%d,\"ret\":%d,\"hnull\":%d", by, w->id, p, w->kind, r != ABT_SUCCESS, th == ABT_THREAD_NULL);
+        EV("\"e\":\"UNew\",\"by\":%d,\"t\":%d,\"p\":%d,\"kind\":%d,\"ret\":%d,\"hnull\":%d", by, w->id, p, w->kind, r != ABT_SUCCESS, th == (w->kind ? ABT_TASK_NULL : ABT_THREAD_NULL));
         if (r == ABT_SUCCESS) {
             w->th = th;
             __sync_fetch_and_add(&g_created, 1);
